@@ -192,14 +192,30 @@ def Obj.function (fdef : Option Id) (envs : List Id) : Obj :=
   { kind := memFunction, strong := match fdef with
       | some d => envs.map (fun e => ⟨false, e⟩) ++ [⟨false, d⟩]
       | none => [] }
+/-- janet_env_maybe_detach, run by the mark phase on every reachable closure environment that is still on a fiber's
+stack: the environment is copied off the stack iff the owning fiber's status is in the (regenerated) detach set -/
+def detachOnMark (fiberStatus : Nat) : Bool := Gen.GC.detachStatuses.contains fiberStatus
+
+/-- where a closure environment keeps its slots -/
+inductive EnvMode where
+  | onStack (fiber : Id)
+  | detached
+  deriving Repr, DecidableEq
+
+/-- the mode of an environment after the mark phase has visited it -/
+def envModeAfterMark (onStack : Option Id) (fiberStatus : Nat) : EnvMode :=
+  match onStack with
+  | some f => if detachOnMark fiberStatus then .detached else .onStack f
+  | none => .detached
+
 open Gen.GC in
 /-- janet_mark_funcenv after janet_env_maybe_detach: still on the stack of a fiber that can run again → the fiber
 (through `janet_mark`, so that fiber → frame function → environment → fiber chains are cut by the depth guard);
-otherwise (detached, or the fiber is finished and the slots are copied out) → the captured values -/
-def Obj.funcenv (onStack : Option Id) (fiberFinished : Bool) (values : List Val) : Obj :=
-  { kind := memFuncEnv, strong := match onStack with
-      | some f => if fiberFinished then vals values else [⟨true, f⟩]
-      | none => vals values }
+otherwise (already detached, or the fiber is finished and the slots are copied out) → the captured values -/
+def Obj.funcenv (onStack : Option Id) (fiberStatus : Nat) (values : List Val) : Obj :=
+  { kind := memFuncEnv, strong := match envModeAfterMark onStack fiberStatus with
+      | .onStack f => [⟨true, f⟩]
+      | .detached => vals values }
 open Gen.GC in
 def Obj.funcdef (constants : List Val) (defs : List Id) (source name : Option Id) (symbols : List Id) : Obj :=
   { kind := memFuncDef, strong := vals constants ++ defs.map (fun d => ⟨false, d⟩) ++ ptr source ++ ptr name
